@@ -4,13 +4,19 @@ import (
 	"bytes"
 	"context"
 	"fmt"
+	"io"
 	"sort"
 	"strings"
+	"time"
 
 	"github.com/buildbarn/bb-storage/pkg/blobstore"
 	"github.com/buildbarn/bb-storage/pkg/blobstore/buffer"
+	"github.com/buildbarn/bb-storage/pkg/clock"
 	"github.com/buildbarn/bb-storage/pkg/digest"
 	pb "github.com/buildbarn/bb-storage/pkg/proto/configuration/blobstore"
+	digestpb "github.com/buildbarn/bb-storage/pkg/proto/configuration/digest"
+	evictionpb "github.com/buildbarn/bb-storage/pkg/proto/configuration/eviction"
+	"google.golang.org/protobuf/types/known/durationpb"
 	"vsim/sim"
 
 	"google.golang.org/grpc/codes"
@@ -30,7 +36,7 @@ var (
 	c19RewritePool = []string{"<same>", "", "x", "x/y", "a", "xyz/a/b"}
 	// instance names used by callers
 	c19NamePool = []string{"", "a", "b", "c", "ab", "abc", "a/a", "a/b", "a/c", "a/bc", "ab/c", "b/a",
-		"a/b/c", "a/b/ab", "ab/a/b", "a/bc/a", "a/b/c/a", "ab/c/b"}
+		"a/b/c", "a/b/ab", "ab/a/b", "a/bc/a", "a/b/c/a", "ab/c/b", "a/b/c/a/b", "b/a/b/c/a/b", "a/b/c/a/b/c/a"}
 	c19FaultCodes = []codes.Code{codes.Unavailable, codes.Internal, codes.PermissionDenied, codes.ResourceExhausted, codes.Unknown}
 )
 
@@ -374,7 +380,35 @@ func c19BadClass(bad string) string {
 	return "malformed-digest-at-backend"
 }
 
-func c19ReadAll(b buffer.Buffer) ([]byte, error) { return b.ToByteSlice(1 << 20) }
+// c19ReadAll consumes a buffer completely, rotating through the consumption
+// methods (a deterministic counter: the decorators' error handling differs
+// between them).
+var c19ReadCount int
+
+func c19ReadAll(b buffer.Buffer) ([]byte, error) {
+	c19ReadCount++
+	switch c19ReadCount % 3 {
+	case 1:
+		r := b.ToReader()
+		defer r.Close()
+		return io.ReadAll(r)
+	case 2:
+		r := b.ToChunkReader(0, 7)
+		defer r.Close()
+		var data []byte
+		for {
+			chunk, err := r.Read()
+			if err == io.EOF {
+				return data, nil
+			}
+			if err != nil {
+				return nil, err
+			}
+			data = append(data, chunk...)
+		}
+	}
+	return b.ToByteSlice(1 << 20)
+}
 
 func c19ErrString(err error) string {
 	if err == nil {
@@ -811,6 +845,96 @@ func c19DemuxProfile(faults bool) func(c *sim.RunCtx) {
 			}
 		})
 	}
+}
+
+// ---- an existence cache in front of the demultiplexer, both assembled by
+// NewBlobAccessFromConfiguration: the cache must key by what the composite
+// behind it announces (instance names matter to a demultiplexer). The stubs'
+// contents only grow, so cached presence never goes stale and FindMissing
+// must stay exactly the union of what the backends hold. ----
+
+func c19ExistenceOverDemux(c *sim.RunCtx) {
+	t := c.T.Plan
+	objs := c19DrawObjs(t)
+	specs := c19DrawSpecs(t, t.Chance(1, 2))
+	c.Sim(sim.SimOpts{MaxSteps: 20000}, func(s *rt.Sched) {
+		w := newC19World(c, objs)
+		dm := newC19Demux(w, specs, true, false, false)
+		oldClock := clock.SystemClock
+		clock.SystemClock = sim.NewClock(s)
+		defer func() { clock.SystemClock = oldClock }()
+		ba := c19FromConfig(w, &pb.BlobAccessConfiguration{Backend: &pb.BlobAccessConfiguration_ExistenceCaching{ExistenceCaching: &pb.ExistenceCachingBlobAccessConfiguration{
+			Backend:        c19DemuxConfig(dm.regs),
+			ExistenceCache: &digestpb.ExistenceCacheConfiguration{CacheSize: 64, CacheDuration: durationpb.New(1000 * time.Second), CacheReplacementPolicy: evictionpb.CacheReplacementPolicy_LEAST_RECENTLY_USED},
+		}}}, false)
+		pls := c19DrawDemuxPlacements(t, dm, len(objs), 10)
+		for i, p := range pls {
+			w.backends[p.Backend].store[p.Key] = c19CopyContent(p, i)
+		}
+		var known []string
+		for _, n := range c19NamePool {
+			if _, _, ok := dm.locate(n); ok {
+				known = append(known, n)
+			}
+		}
+		if len(known) == 0 {
+			return
+		}
+		cs := fmt.Sprintf("existence cache over demux: objs[%s] routes %s stored[%s]", c19ObjsString(objs), dm.describe(), c19PlacementsString(pls))
+		c.Sample["case"] = cs
+		c.Note("case %s", cs)
+		ctx := context.Background()
+		present := func(k c19Key) bool {
+			b, patched, ok := dm.locate(k.Inst)
+			if !ok {
+				return false
+			}
+			_, has := w.backends[b].store[c19Key{patched, k.Obj}]
+			return has
+		}
+		for i, n := 0, 4+t.Choose(12); i < n && !c.Failed(); i++ {
+			w.beginOp(nil)
+			if t.Chance(1, 4) {
+				k := c19Key{known[t.Choose(len(known))], t.Choose(len(objs))}
+				data := []byte(fmt.Sprintf("put-%d", i))
+				err := ba.Put(ctx, w.digestOf(k.Inst, k.Obj), buffer.NewValidatedBufferFromByteSlice(data))
+				c.Logf("Put(%s) -> %v", k, err)
+				if err != nil {
+					c.Fail("spurious-error", "Put(%s) failed with %v [%s]", k, err, cs)
+				}
+				continue
+			}
+			var ks []c19Key
+			for j, m := 0, 1+t.Choose(3); j < m; j++ {
+				ks = append(ks, c19Key{known[t.Choose(len(known))], t.Choose(len(objs))})
+			}
+			ks = c19DedupKeys(ks)
+			res, err := ba.FindMissing(ctx, w.buildSet(ks))
+			if err != nil {
+				c.Fail("spurious-error", "FindMissing(%s) failed with %v [%s]", c19KeysString(ks), err, cs)
+				return
+			}
+			got, ok := w.decodeResultSet(res)
+			if !ok {
+				c.Fail(c19BadClass(w.bad), "%s [%s]", w.bad, cs)
+				return
+			}
+			var want []c19Key
+			for _, k := range ks {
+				if !present(k) {
+					want = append(want, k)
+				}
+			}
+			want = c19SortKeys(want)
+			c.Logf("FindMissing(%s) -> %s (backends hold all but %s)", c19KeysString(ks), c19KeysString(got), c19KeysString(want))
+			if c19KeysString(got) != c19KeysString(want) {
+				c.Fail("existence-cache-changes-findmissing", "FindMissing(%s) through an existence cache in front of the demultiplexer returned %s, but the backends are missing exactly %s (contents only grew, so no cached answer can be stale) [%s]", c19KeysString(ks), c19KeysString(got), c19KeysString(want), cs)
+				return
+			}
+			c.Count("probe_existence_cache_over_demux_findmissing", 1)
+		}
+	})
+	c.Nontrivial = true
 }
 
 // ---- hierarchical instance names ----
@@ -1375,6 +1499,7 @@ func init() {
 			{Name: "hierarchical", Weight: 4, Fn: c19HierProfile(false)},
 			{Name: "hierarchical-faults", Weight: 2, Fn: c19HierProfile(true)},
 			{Name: "trie", Weight: 2, Fn: c19TrieProfile},
+			{Name: "existence-cache-over-demux", Weight: 2, Fn: c19ExistenceOverDemux},
 			{Name: "exhaustive-small", Prologue: true, Fn: c19Exhaustive},
 		},
 		Components: map[string][]string{
